@@ -133,7 +133,7 @@ COMB_OPS_BASIC = ['And2', 'Or2', 'Xor2', 'Nand2', 'Not', 'Buf', 'Add', 'Sub', 'M
 
 @st.composite
 def netlists(draw, max_nodes=20, min_nodes=1, ops=None, n_regs=(0, 0), reg_opts=True, hierarchy=0, domains=False,
-             widths=None, div=False, max_w=64, n_mems=(0, 0), reg_values=False):
+             widths=None, div=False, max_w=64, n_mems=(0, 0), reg_values=False, reg_d_any=False):
     ops = list(ops or COMB_OPS_BASIC)
     if div:
         ops += ['Div', 'Mod']
@@ -263,6 +263,8 @@ def netlists(draw, max_nodes=20, min_nodes=1, ops=None, n_regs=(0, 0), reg_opts=
     for rid in reg_ids:
         w = nodes[rid]['w']
         d = pick(w)
+        if reg_d_any and draw(st.integers(0, 3)) == 0:
+            d = pick()               # the d input of a register may be narrower or wider than q
         args = [d[0]]
         p = {'en': False, 'rst': False}
         if reg_opts and draw(st.booleans()):
@@ -467,7 +469,7 @@ def ref_trace(desc, seq, raw_out=None):
             elif rst == 1:
                 new[k] = (nd['p'].get('rv') or 0) & mask(nd['w'])
             elif en:
-                new[k] = d
+                new[k] = d & mask(nd['w'])        # a d input of another width is truncated / zero extended
         regs = new
         mealy = newm
         trace.append(ref_settle(desc, order, invals, regs, raw_out, mealy=mealy))
